@@ -21,6 +21,7 @@ import Fir.Model.SimdU16x3
 import Fir.Model.SimdU16x4A
 import Fir.Model.SimdU16x2A
 import Fir.Model.SimdU16x1A
+import Fir.Model.SimdU8x1A
 namespace Fir
 
 /-- C02 tolerance between two back-ends: integers identical, f32 a few ulps of a re-associated f64 sum -/
@@ -184,9 +185,10 @@ def handleKernel (fs : List (String × String)) : String :=
         else none
       -- two-channel 8-bit images on SSE4.1, horizontal pass: two partial sums per channel joined by a saturating addition
       let lane2 : Option String :=
-        if p.kind == .u8 ∧ p.n == 2 ∧ ext == "sse4" ∧ pass == "h" ∧ got.size == dw * dh * 2 then Id.run do
+        if p.kind == .u8 ∧ p.n == 2 ∧ (ext == "sse4" ∨ ext == "avx2") ∧ pass == "h" ∧ got.size == dw * dh * 2 then Id.run do
           let q := normalize16 c
-          for y in [0:dh] do
+          -- AVX2: only the rows of four-row blocks (two rows per register, each half = the SSE4.1 row) are modelled lane by lane
+          for y in [0:(if ext == "avx2" then dh - dh % 4 else dh)] do
             let row : List Int := (List.range (sw * 2)).map fun i => src[(offset + y) * sw * 2 + i]!
             for x in [0:dw] do
               let (start, ks) := q.chunks.getD x (0, #[])
@@ -194,7 +196,7 @@ def handleKernel (fs : List (String × String)) : String :=
                         else SimdU8x2.pixel q.precision row start ks.toList
               for ch in [0:2] do
                 if px.getD ch 0 ≠ got[(y * dw + x) * 2 + ch]! then
-                  return some s!"lane model of the SSE4.1 U8x2 horizontal kernels: pixel ({x},{y}) channel {ch}: model={px.getD ch 0} got={got[(y * dw + x) * 2 + ch]!}"
+                  return some s!"lane model of the {ext} U8x2 horizontal kernels: pixel ({x},{y}) channel {ch}: model={px.getD ch 0} got={got[(y * dw + x) * 2 + ch]!}"
           return none
         else none
       -- single-channel 16-bit images on SSE4.1, horizontal pass (four-row blocks and leftover rows do the same per row)
@@ -298,6 +300,20 @@ def handleKernel (fs : List (String × String)) : String :=
                 return some s!"lane model of the AVX2 U16 horizontal kernels: pixel ({x},{y}): model={px} got={got[y * dw + x]!}"
           return none
         else none
+      -- single-channel 8-bit images on AVX2, horizontal pass (four-row blocks and leftover rows do the same per row)
+      let lane1a : Option String :=
+        if p.kind == .u8 ∧ p.n == 1 ∧ ext == "avx2" ∧ pass == "h" ∧ got.size == dw * dh then Id.run do
+          let q := normalize16 c
+          for y in [0:dh] do
+            let row : List Int := (List.range sw).map fun i => src[(offset + y) * sw + i]!
+            for x in [0:dw] do
+              let (start, ks) := q.chunks.getD x (0, #[])
+              let px := SimdU8x1A.pixelA q.precision row start ks.toList
+              if px ≠ got[y * dw + x]! then
+                return some s!"lane model of the AVX2 U8 horizontal kernels: pixel ({x},{y}): model={px} got={got[y * dw + x]!}"
+          return none
+        else none
+      let lane161a := match lane161a with | some e => some e | none => lane1a
       let lane162a := match lane162a with | some e => some e | none => lane161a
       let lane164a := match lane164a with | some e => some e | none => lane162a
       let lane163 := match lane163 with | some e => some e | none => lane164a
